@@ -2,6 +2,7 @@ import SMV.Props.C11
 import SMV.Props.C16
 import SMV.Props.C12
 import SMV.Model.Clone
+import SMV.Model.Expr
 /-!
 # C17 — deepcopy / pickle clones are equivalent and independent
 
@@ -290,6 +291,53 @@ example :
       = .ok ⟨[⟨5, 0, 50⟩, ⟨5, 3, 53⟩, ⟨6, 1, 61⟩, ⟨6, 2, 62⟩], .sync⟩ := by
   decide
 
+/-- **C17 (registry of a copy, as the code is now).** `__setstate__` replays the remembered attachment passes:
+the copy's registry — items *in executor order* — and engine kind are exactly those of the original, for any
+constructor listeners and any sequence of `add_listener` calls; it fails iff the original's construction
+failed. (The copy even shares the original's D12 behaviour: a late coroutine listener does not change the
+engine.) -/
+theorem C17_registry_replay (isCoro : CbId → Bool) (mm ctor : List Provider) (lates : List (List Provider))
+    (names required : List Name) :
+    setstateReplay isCoro mm (ctor :: lates) names required = original isCoro mm ctor lates names required := rfl
+
+/-- … in particular with late listeners: same items as "constructed, then extended", same engine kind -/
+theorem C17_registry_replay_late (isCoro : CbId → Bool) (mm ctor late : List Provider) (names required : List Name)
+    (r₀ : Reg) (h₀ : registerAll isCoro (mm ++ ctor) names required = .ok r₀) :
+    setstateReplay isCoro mm [ctor, late] names required = .ok (addListeners r₀ late names) := by
+  simp [setstateReplay, h₀]
+
 end Prov
+
+/-! ### D29: why the one-pass registration was not enough (guard expressions)
+
+At the level of names the one-pass `__setstate__` resolves the same callbacks as the original
+(`C17_registry_late`). A guard *expression*, however, is built once per attachment pass over the providers of
+that pass: `passGuards` lists the guards an entry yields. -/
+namespace GExpr
+
+/-- the guards one `cond`/`unless` entry yields over a sequence of attachment passes: one per pass whose
+providers offer every name of the expression -/
+def passGuards (passes : List (Nat → List Nat)) (e : E) (expected : Bool) : List Guard :=
+  passes.filterMap fun prov => if (unknowns prov e).isEmpty then some ⟨subst prov e, expected⟩ else none
+
+/-- **D29 (witness).** `cond="!locked"`; slot 0 = the machine's `locked` (True), slot 1 = the late listener's
+(False). The original (constructor pass, then the late pass) holds `not m.locked` and `not l.locked`: not
+enabled. The one-pass copy held `not (m.locked and l.locked)`: enabled. The replayed copy is the original. -/
+theorem C17_D29_witness :
+    let e : E := .not (.name 0)
+    let ρ : Env := fun s => .bool (s == 0)
+    (allLib pySem ρ (passGuards [fun _ => [0], fun _ => [1]] e true)).val = some false ∧
+    (allLib pySem ρ (passGuards [fun _ => [0, 1]] e true)).val = some true := by
+  decide
+
+/-- for a plain name (`cond="ready"`) the two registrations agree on every valuation of two providers -/
+theorem passGuards_plain_name_agree (a b : V) :
+    let ρ : Env := fun s => if s == 0 then a else b
+    (allLib pySem ρ (passGuards [fun _ => [0], fun _ => [1]] (.name 0) true)).val =
+    (allLib pySem ρ (passGuards [fun _ => [0, 1]] (.name 0) true)).val := by
+  simp only [passGuards, List.filterMap, unknowns, names, List.filter, List.isEmpty, subst, provExpr, List.foldl]
+  cases ha : truthy a <;> cases hb : truthy b <;> simp [allLib, evalLib, ha, hb]
+
+end GExpr
 
 end SMV
